@@ -453,6 +453,7 @@ def run(ctx, scratch):
         run_operators(ctx, impl, rng, quick, dmax, depth_max, notes)
         run_utils(ctx, impl, rng, quick, dmax)
         run_source_normalizer(ctx, impl, rng, quick)
+        run_slr_history(ctx, impl, rng, quick)
     ctx.extra['aliasing'] = notes
     ctx.rule = ('operator expressions: class in {SparseLR/Regularizer (13 operations incl. normalize, directed2undirected), '
                 'Normalizer, Laplacian, CoNeighbor (6 operations), Polynome (3 operations)}, depth <= %d, every sparse operand '
@@ -468,6 +469,40 @@ def run(ctx, scratch):
                        'base matrices of CoNeighbor and Polynome have at least one stored entry (check_format rejects empty matrices)',
                        'directed2undirected / bipartite2* on operators: plain SparseLR objects (check_csr_or_slr rejects the Regularizer subclass)',
                        'cases where a pseudo-inverse is taken of a value within 1e-7 of zero (cancellation) are dropped and counted']
+
+
+def run_slr_history(ctx, impl, rng, quick):
+    """Multi-step histories on ONE SparseLR object (transposes handed out, value-changing casts, sums): after every step the operator
+    must still apply as the dense matrix it denotes (a cache that survives a cast, or a handed-out transpose that aliases the
+    original, shows only here).  The oracle is computed by the worker from plain dense arrays, independently of the class."""
+    steps_pool = ['dot', 'Tdot', 'sum0', 'sum1', 'hold_T', 'cast_held_int', 'astype_int', 'astype_float']
+    n_hist = 0
+    for _ in range(60 if quick else 500):
+        nr, nc = rng.randint(1, 5), rng.randint(1, 5)
+        S = [[rng.choice([0, 0, 1, 2.5, 0.5, -1.5, 3]) for _ in range(nc)] for _ in range(nr)]
+        lr = [([rng.choice([0.5, 1, 1.5, -2, 0]) for _ in range(nr)], [rng.choice([0.5, 1, 2, -1.5, 0]) for _ in range(nc)])
+              for _ in range(rng.randint(0, 2))]
+        steps = ['Tdot'] + [rng.choice(steps_pool) for _ in range(rng.randint(3, 7))] + ['Tdot', 'sum0', 'dot']
+        args = dict(S=S, lr=lr, v_row=[rng.randint(-3, 4) for _ in range(nr)], v_col=[rng.randint(-3, 4) for _ in range(nc)], steps=steps)
+        r = impl.call('c15', 'slr_history', args, timeout=30)
+        ctx.traces += 1
+        n_hist += 1
+        ctx.count('slr_history', ('hist', args), True)
+        if 'ok' not in r:
+            ctx.violation('SparseLR', 'a history of operations on one SparseLR object crashed / hung', case=args, observed=r, check='history')
+            continue
+        for pos, st in enumerate(r['ok']):
+            if 'err' in st:
+                ctx.violation('SparseLR', 'step %d (%s) of a history on one SparseLR object raised %s' % (pos, st['step'], st['err']),
+                              case=args, observed=st, check='history', step=st['step'])
+                break
+            a, b = st['got'], st['exp']
+            if len(a) != len(b) or any(abs(u - w) > 1e-9 * max(1.0, abs(w)) for u, w in zip(a, b)):
+                ctx.violation('SparseLR', 'after step %d (%s) of a history on one SparseLR object the operator no longer applies as the '
+                              'dense matrix it denotes' % (pos, st['step']), case=args, expected=b, observed=a, check='history',
+                              step=st['step'], steps=steps[:pos + 1])
+                break
+    ctx.extra['slr_histories'] = n_hist
 
 
 def run_source_normalizer(ctx, impl, rng, quick):
